@@ -124,6 +124,7 @@ func RunSeq(c *Ctx, spec SeqSpec) {
 		}
 		return
 	}
+	c.BeginSpec()
 	seen := map[string]struct{}{}
 	root := &seqState{}
 	{
